@@ -22,10 +22,11 @@ package mice
 //@   props C15 C10
 //@   requires d.r != nil && d.nextProof != nil && len(d.nextProof) == 32 && d.recordSize >= 1 && len(d.recordBuf) == d.recordSize + 32 && len(d.out) == 0
 //@   requires base(d.recordBuf) != base(d.nextProof) && d.recordBuf != nil
-//@   ensures[not-last-validated] result == nil && d.nextProof != nil ==> recOK(bytes(d.recordBuf), old(bytes(d.nextProof)), false) && len(d.out) == d.recordSize && bytes(d.nextProof) == bytes(d.recordBuf[d.recordSize:])
+//@   ensures[not-last-validated] result == nil && d.nextProof != nil ==> recOK(bytes(d.recordBuf), old(bytes(d.nextProof)), false) && len(d.out) == d.recordSize && len(d.nextProof) == 32 && (forall i int :: 0 <= i && i < 32 ==> d.nextProof[i] == d.recordBuf[d.recordSize + i])
 //@   ensures[last-validated] result == nil && d.nextProof == nil ==> recOK(bytes(d.out), old(bytes(d.nextProof)), true) && len(d.out) <= d.recordSize
 //@   ensures[out-is-record-prefix] result == nil ==> base(d.out) == base(d.recordBuf) && off(d.out) == off(d.recordBuf)
 //@   ensures[error-exposes-nothing] result != nil ==> len(d.out) == 0
-//@   ensures[clean-eof-only-after-last] result == io.EOF ==> d.nextProof == nil && d.encoding == Draft02Encoding && recOK(emptyBytes(), old(bytes(d.nextProof)), true)
+//@   ensures[clean-eof-only-after-last] result == io.EOF ==> d.nextProof == nil && d.encoding == Draft02Encoding
+//@   ensures[clean-eof-validated] result == io.EOF ==> recOK(emptyBytes(), old(bytes(d.nextProof)), true)
 //@   ensures spos(d.r) >= old(spos(d.r)) && spos(d.r) <= send(d.r)
 //@   assigns d.out, d.nextProof, elems(d.recordBuf), elems(d.nextProof), spos(d.r)
